@@ -9,8 +9,6 @@ import (
 	"github.com/postalsys/muti-metroo/internal/exit"
 	"github.com/postalsys/muti-metroo/internal/forward"
 	"github.com/postalsys/muti-metroo/internal/identity"
-	"github.com/postalsys/muti-metroo/internal/peer"
-	"github.com/postalsys/muti-metroo/internal/protocol"
 	"github.com/postalsys/muti-metroo/internal/stream"
 )
 
@@ -107,15 +105,6 @@ func (v *VerifRelayTable) Snapshot() VerifRelaySnapshot        { return verifSna
 // ---------------------------------------------------------------------------
 // agent-level hooks: the harness plays the neighbouring agents and delivers
 // frames at handler granularity.
-
-// VerifProcessFrame runs the agent's frame dispatcher for one frame received
-// from peerID (what peer.Connection.drainFrames does through OnFrame).
-func (a *Agent) VerifProcessFrame(peerID identity.AgentID, frame *protocol.Frame) {
-	a.processFrame(peerID, frame)
-}
-
-// VerifPeerManager exposes the peer manager (to register harness connections).
-func (a *Agent) VerifPeerManager() *peer.Manager { return a.peerMgr }
 
 // VerifPeerDisconnect does what the peer manager does when the connection to
 // peerID ends: remove it from the peers map, then notify the agent.
